@@ -61,6 +61,14 @@ class C14(XsProp):
                 for how in ('run', 'stepall'):
                     cs.append('xs limits 100000 - - | clone | eval %s | stack | out | use 1 | limits %d - - | eval %s | out | limits 100000 - - | %s | stack | out | dump'
                               % (hexsrc(p), N, hexsrc(p), how) + ' | use 0 | dump')
+        # an instruction budget N is not refreshed by changing the other two limits: N instructions in total, however the
+        # evaluations are split and whatever else is set in between
+        for N in (3, 6, 10, 17):
+            for mid in ('stacklimit 100', 'heaplimit 100', 'stacklimit -', 'heaplimit -', 'stacklimit 100 | heaplimit 50'):
+                for k in (1, 2, 4):
+                    a = ' '.join(str(i) for i in range(k))
+                    b = ' '.join(str(i) for i in range(N))
+                    cs.append('xs insnlimit %d | eval %s | %s | eval %s | dump' % (N, hexsrc(a), mid, hexsrc(b)))
         # limits changed between evaluations on one interpreter
         for i in range(n // 5):
             a, b = rng.choice(progs_), rng.choice(progs_)
@@ -120,6 +128,17 @@ class C14(XsProp):
                 if outs[-2] != 'ok' and 'ELimit' in outs[-2]:
                     fails.append(('case: %s\nresult: %s' % (c, o[:1500]), 'still failing with a limit error after the limits were raised'))
         for c, o in zip(cases, impl):
+            if c.startswith('xs insnlimit '):
+                ou = o.split(' | ')
+                N = int(c.split(' ')[2])
+                n += 1
+                meter = int(field(ou[-1], 'meter'))
+                ds = len([x for x in field(ou[-1], 'ds').split(' ') if x])
+                # every literal is one instruction: at most N values can ever have been pushed
+                if meter > N or ds > N or not ou[-2].startswith('ELimit'):
+                    fails.append(('case: %s\nresult: %s' % (c, o[:600]),
+                                  'more than %d instructions ran after the instruction limit was set (meter %d, %d values pushed)' % (N, meter, ds)))
+                continue
             if c.startswith('xs limits 100000 - - | clone | eval '):
                 ou = o.split(' | ')
                 if len(ou) != 16 or 'PANIC' in o:
